@@ -87,6 +87,18 @@ private:
 
   void resort() { std::sort(_data.begin(), _data.end(), value_comp()); }
 
+  //! Sort and keep the first of each run of equivalent keys (what the range
+  //! constructors of std::map do)
+  void resort_unique() {
+    std::stable_sort(_data.begin(), _data.end(), value_comp());
+    _data.erase(std::unique(_data.begin(), _data.end(),
+                            [this](const value_type& a, const value_type& b) {
+                              return !_comp(a.first, b.first) &&
+                                     !_comp(b.first, a.first);
+                            }),
+                _data.end());
+  }
+
 public:
   typedef typename _Pair_alloc_type::pointer pointer;
   typedef typename _Pair_alloc_type::const_pointer const_pointer;
@@ -122,14 +134,15 @@ public:
   template <typename _InputIterator>
   flat_map(_InputIterator __first, _InputIterator __last)
       : _data(__first, __last), _comp() {
-    resort();
+    resort_unique();
   }
 
   template <typename _InputIterator>
-  flat_map(_InputIterator __first, _InputIterator __last, const _Compare&,
+  flat_map(_InputIterator __first, _InputIterator __last,
+           const _Compare& __comp,
            const allocator_type& __a = allocator_type())
-      : _data(__first, __last, _Pair_alloc_type(__a)) {
-    resort();
+      : _data(__first, __last, _Pair_alloc_type(__a)), _comp(__comp) {
+    resort_unique();
   }
 
   flat_map& operator=(const flat_map& __x) {
